@@ -8,6 +8,9 @@ let rec node_of (x : sexp) : node =
     NObj (strs p, sbool nl, bytes_of_string ty, strs poss, strs inacc, sbool unres, List.map field_of fs)
   | L [A "arr"; p; nl; item] -> NArr (strs p, sbool nl, node_of item)
   | L [A "str"; p; nl] -> NStr (strs p, sbool nl)
+  (* resolve.String{IsTypeName:true}: with default options (no type renames) walkString treats it exactly like
+     any String -- null test, TypeString kind test, value printed as is -- so it is the same model node *)
+  | L [A "str"; p; nl; L [A "tn"]] -> NStr (strs p, sbool nl)
   | L [A "bool"; p; nl] -> NBool (strs p, sbool nl)
   | L [A "int"; p; nl] -> NInt (strs p, sbool nl)
   | L [A "float"; p; nl] -> NFloat (strs p, sbool nl)
